@@ -10,6 +10,8 @@
 //! the public API (a row with all 256 codes is flipped once), and the codes whose mirror image differs between font instances
 //! (the engine derives the maps from hash-map iteration order); the generators do not use those codes.
 //!
+//! `--case FILE` runs one hand-written case ({"d": document, "ops": [...]}), `--replay ID` one case of the enumeration.
+//!
 //! Case sources: (1) the (document, operation) pairs exported by TLC from MC_Area (Gen_Area.cfg), sampled in the quick tier;
 //! (2) a family on protected current layers (locked / hidden / alpha-locked) and on layers that store fewer rows than their
 //! height; (3) seeded random documents up to 12 x 8 with 1..3 layers and sequences of 1..3 operations.
@@ -554,9 +556,14 @@ pub fn area(a: &Args) {
     random_cases(seed, a.usize("prot", if thorough { 6000 } else { 1200 }), true, &av, &mut cases);
     random_cases(seed, a.usize("random", if thorough { 40000 } else { 4000 }), false, &av, &mut cases);
     if a.has("replay") {
-        // --replay ID: one case, printed to stderr
+        // --replay ID: only that case of the enumeration
         let id = a.str("replay", "");
         cases.retain(|c| c.id == id);
+    }
+    if a.has("case") {
+        // --case FILE: one hand-written case {"d": document, "ops": [operation ...], "page1": 0/1}
+        let v: Value = serde_json::from_str(&std::fs::read_to_string(a.str("case", "")).expect("case file")).expect("case json");
+        cases = vec![Case { id: "case".into(), src: "file", d: v["d"].clone(), ops: v["ops"].as_array().cloned().unwrap_or_default(), hid: Hidden::default(), page1: v["page1"].as_i64().unwrap_or(0) != 0 }];
     }
     let cases = std::sync::Arc::new(cases);
     let m = std::sync::Arc::new(m);
